@@ -13,6 +13,7 @@ import glob
 import json
 import os
 import random
+import re
 import shutil
 import subprocess
 import time
@@ -74,6 +75,10 @@ def run(ctx):
     cases = fc.stratify(cases)[::2] if ctx.quick else cases[::5]
     for tag, p, expect, m, c in fc.inputs(ctx, cases, wd):
         inputs.append(("%s:%s" % ("mutant:" + m["class"] if m else "valid", tag), p, m))
+    # every single-token mutant (deleted, doubled, swapped, undeclared name, misplaced keyword, literal for name) of the
+    # richest schemas of the family (spec/TokMut.tla)
+    for tag, p, expect, m, c in fc.token_inputs(ctx, fc.gen(ctx, with_mutants=False)[0], wd, 2 if ctx.quick else 8):
+        inputs.append(("token:%s:%s" % (m["class"], tag), p, m))
     # byte-level truncations and mutations of one valid schema
     base = express.render(cases[0]["schema"]).encode()
     rnd = random.Random(ctx.seed)
@@ -120,7 +125,9 @@ def run(ctx):
         if san:
             for ln in err.split("\n"):
                 if ("/src/" in ln or "expparse" in ln) and "#" in ln:
-                    frame = ln.strip()[:160]
+                    # function and source position only: stable across runs and trees
+                    mm = re.search(r"in (\S+) .*?(src/\S+|expparse\S*)", ln)
+                    frame = ("%s %s" % (mm.group(1), mm.group(2)) if mm else re.sub(r"0x[0-9a-f]+", "", ln.strip()))[:160]
                     break
         return tag, tool, rc, to, san, frame, round(time.time() - t0, 2), err[-600:]
     lines, meta = [], []
@@ -140,7 +147,7 @@ def run(ctx):
         ev = rep["ev"]
         tag, tool, frame, err = meta[rep["line"] - 1]
         what = "sanitizer" if ev["sanitizer"] else "signal" if ev["signalled"] else "timeout" if ev["timedout"] else "status"
-        origin = tag.split(":")[0] + (":" + tag.split(":")[1] if tag.startswith(("boundary", "mutant")) else "")
+        origin = tag.split(":")[0] + (":" + tag.split(":")[1] if tag.startswith(("boundary", "mutant", "token")) else "")
         try:
             content = open(paths[tag], "rb").read()[:4000].decode("latin-1")
         except OSError:
@@ -150,7 +157,7 @@ def run(ctx):
                       {"input_tag": tag, "tool": tool, "input_head": content, "stderr_tail": err})
     shutil.rmtree(wd, ignore_errors=True)
     cov = {"states": d.distinct, "evaluations": len(jobs), "distinct_nontrivial": len(inputs), "unsafe_runs": len(got),
-           "inputs_by_origin": {k: sum(1 for t, _, _ in inputs if t.startswith(k)) for k in ("boundary", "valid", "mutant", "truncate", "mutate", "shipped")},
+           "inputs_by_origin": {k: sum(1 for t, _, _ in inputs if t.startswith(k)) for k in ("boundary", "valid", "mutant", "token", "truncate", "mutate", "shipped")},
            "samples": [json.loads(lines[0]), {"boundary_input": boundary_input("scope_depth", 3)}],
            "rule": "boundary family of every modelled table + valid family + single-fault mutants + truncations and byte "
                    "mutations of a valid schema (+ shipped schemas in the thorough tier), each through 4 sanitizer-built tools; "
